@@ -4,7 +4,9 @@ import (
 	"bufio"
 	"context"
 	"encoding/hex"
+	"errors"
 	"fmt"
+	"github.com/emersion/go-webdav/internal"
 	"os"
 	"strings"
 )
@@ -92,3 +94,7 @@ func guard(f func() string) (res string) {
 func itoa(n int) string { return fmt.Sprintf("%d", n) }
 
 var bgCtx = context.Background()
+
+func (r *RNG) Pick2(vals ...int) int { return vals[r.Intn(len(vals))] }
+
+func asHTTP(err error, target **internal.HTTPError) bool { return errors.As(err, target) }
